@@ -282,12 +282,12 @@ class Coordinate:
         _lon = [
             zero_pad(abs(lon[0]), 3),
             zero_pad(lon[1], 2),
-            zero_pad(round_half_up(lon[2], 2), 4),
+            zero_pad(f'{round_half_up(lon[2], 2):.2f}', 4),
         ]
         _lat = [
             zero_pad(abs(lat[0]), 2),
             zero_pad(lat[1], 2),
-            zero_pad(round_half_up(lat[2], 2), 4)
+            zero_pad(f'{round_half_up(lat[2], 2):.2f}', 4)
         ]
         if reverse:
             return f'{lat[3]}{"".join(_lat)}', f'{lon[3]}{"".join(_lon)}'
